@@ -948,12 +948,17 @@ func (r *Resolvable) printExtensions(ctx context.Context, fetchTree *FetchTreeNo
 		}
 		writeComma = true //nolint:all // should we add another print func, we should not forget to write a comma
 
-		counter := 0
-		for key, value := range r.allowedExtensions {
+		// print in a stable order: the response must not depend on map iteration order
+		keys := make([]string, 0, len(r.allowedExtensions))
+		for key := range r.allowedExtensions {
+			keys = append(keys, key)
+		}
+		sort.Strings(keys)
+		for counter, key := range keys {
+			value := r.allowedExtensions[key]
 			if counter > 0 {
 				r.printBytes(comma)
 			}
-			counter++
 			// the key was taken from a subgraph's extensions object: encode it as a JSON string
 			encodedKey, err := json.Marshal(key)
 			if err != nil {
